@@ -77,6 +77,27 @@ func extractImport() {
 	}
 	l.def("iteratorRanges", "List String", lstrs(ia), "start,end arguments of the two Iterator(...) calls in appendNewHeaders")
 
+	// Import(): the index range the two validators are run over
+	var valRanges []string
+	if fd := funcDecl(f, "headersImport", "Import"); fd == nil {
+		fail("chainimport/headers_import.go: method headersImport.Import")
+	} else {
+		nval := 0
+		for _, c := range calls(fd.Body) {
+			if strings.HasSuffix(c.name, "ImportSource.Iterator") && len(c.args) >= 2 {
+				valRanges = append(valRanges, c.args[0]+","+c.args[1])
+			}
+			if strings.HasSuffix(c.name, "Validator.Validate") {
+				nval++
+			}
+		}
+		if len(valRanges) != 2 || nval != 2 {
+			fail("Import: two Iterator(start, end, batch) calls feeding two Validate calls")
+		}
+	}
+	l.def("validatedRanges", "List String", lstrs(valRanges), "start,end index arguments of the iterators the block and filter validators are run over in Import")
+	shape["validatedRanges"] = valRanges
+
 	var order []string
 	rollbackInBranch := false
 	rollbackCount := ""
